@@ -62,7 +62,12 @@ func execSc(a []Tok) string {
 		return fmt.Sprintf("ok %s %s %d", fmtF(l.Min), fmtF(l.Max), l.Base)
 	}
 	if a[1].IsArr { // qq src dst dir x
-		q := scale.QQ{Src: mkScale(a[0]), Dest: mkScale(a[1])}
+		src := mkScale(a[0])
+		dst := src // a case that names the same scale twice passes ONE object for both ends
+		if !sameTok(a[0], a[1]) {
+			dst = mkScale(a[1])
+		}
+		q := scale.QQ{Src: src, Dest: dst}
 		if a[2].Atom == "map" {
 			return fmtF(q.Map(a[3].F()))
 		}
@@ -328,6 +333,13 @@ func randX(rng *rand.Rand, a, b float64, log bool) float64 {
 		}
 		return e + (o-e)*f
 	}
+	if rng.Intn(25) == 0 { // the ends of the float64 range (normal numbers only)
+		v := []float64{1e-307, 3e-308, 1e300, 1e299, 1e-300, 1e150}[rng.Intn(6)] // (math.Exp of this toolchain overflows from 709.5 on and math.Log is off on subnormals: kept clear of both)
+		if a < 0 || (!log && rng.Intn(2) == 0) {
+			v = -v
+		}
+		return v
+	}
 	if log {
 		switch rng.Intn(6) {
 		case 0:
@@ -404,6 +416,9 @@ func genC16(w *bufio.Writer, tier string, rng *rand.Rand) {
 			sl, ll := rng.Intn(2) == 0, rng.Intn(2) == 0
 			src, a, b := scTok(rng, sl)
 			dst, c, d := scTok(rng, ll)
+			if rng.Intn(8) == 0 { // the same scale at both ends
+				dst, c, d, ll = src, a, b, sl
+			}
 			if rng.Intn(2) == 0 {
 				fmt.Fprintf(w, "sc %s %s map %s\n", src, dst, fmtF(randX(rng, a, b, sl)))
 			} else {
